@@ -22,6 +22,7 @@ ASSUMPTIONS = [
 ]
 SOURCE_FILES = ["barter/src/risk/mod.rs", "barter/src/risk/check/mod.rs", "barter/src/risk/check/util.rs",
                 "barter-instrument/src/instrument/kind/mod.rs"]
+PREBUILD = [["python3", "tools/rust2lean_sm.py", "--require", "risk"]]
 
 
 def signature(ops, k, key, impl_line, spec_line):
@@ -55,4 +56,5 @@ LEVEL_TEXT = ("Sub-check of C03. Lean theorems (lean/BarterModel/Props/C03R.lean
               "verdict, the shape the C03 engine model assumes, of which DefaultRiskManager is the instance `never refuse`); composed: a max-notional check "
               "refuses exactly q*p*cs > limit, a max-deviation check accepts exactly other*(1-limit) <= current <= other*(1+limit). The model is tied to the code by running the same ops through the real functions.")
 LEVEL_NOTE = ("Trusted: Lean kernel (axioms propext/Classical.choice/Quot.sound only); the hand-written model tied by sampled correspondence; harness and "
-              "driver. Decimal rounding not modelled; overflow modelled as |exact result| > 2^96-1.")
+              "driver. Decimal rounding not modelled; overflow modelled as |exact result| > 2^96-1. "
+              "Additionally tied by translation: the wrappers' new / into_item, CheckHigherThan::{new, check} (for every PartialOrd::le) and the three util.rs helpers are regenerated from the current source on every run by tools/rust2lean_sm.py (Generated/Machines2.lean) and proved equal to the model (kernels_agree_with_source; overflow-free instance, and value-for-value for every representability predicate); the translator and its prelude are trusted for that tie.")
